@@ -7,7 +7,7 @@ From BV Require Import Corr.C03corr.
    answered (a no-op when the token was withdrawn: the answer comes too late); 2+e = event e is
    delivered; 100+e = event e and the answer are issued concurrently (either order is admissible).
    At the end the harness answers whatever is still pending (activating the activity first if it
-   never was). *)
+   never was); those operations are part of the list. *)
 Definition try (c : bcfg) (specs : list bspec) (s : bst) (l : blabel) : bst :=
   match bstep c specs s l with Some s' => s' | None => s end.
 Definition fire_all (c : bcfg) (specs : list bspec) (s : bst) : bst :=
@@ -26,9 +26,6 @@ Fixpoint replay (c : bcfg) (specs : list bspec) (ss : list bst) (ops : list nat)
       in replay c specs ss' r
   end.
 
-Definition sweep (c : bcfg) (specs : list bspec) (s : bst) : bst :=
-  let s1 := if entered s =? 0 then try c specs s BEnter else s in try c specs s1 BAnswer.
-
 Definition outcome_eqb (s : bst) (n : nat) (xs : list nat) : bool :=
   (normal s =? n) && list_eqb Nat.eqb (exc s) xs && list_eqb Bool.eqb (armed s) (all_false (length xs)) && (inside s =? 0).
 
@@ -37,6 +34,6 @@ Definition outcome_eqb (s : bst) (n : nat) (xs : list nat) : bool :=
 Definition case_ok (cs : list (nat * nat) * list nat * nat * list nat * nat) : bool :=
   let '(sp, ops, n, xs, completed) := cs in
   let specs := map (fun p => (negb (fst p =? 0), snd p)) sp in
-  let finals := map (sweep b_fixed specs) (replay b_fixed specs [binit (length specs)] ops) in
+  let finals := replay b_fixed specs [binit (length specs)] ops in
   existsb (fun s => outcome_eqb s n xs) finals && (completed =? 1).
 Definition c10_mismatches := mism_from case_ok 0.
